@@ -362,7 +362,7 @@ class FnA:
             return self._project(base, up[1], bi, pos, depth, seen)
         l = place["l"]
         proj = place["p"]
-        if proj and self._mut_borrowed(l) and self.body.local_name(l):
+        if (proj or self._local_adt(l)) and self._mut_borrowed(l) and self.body.local_name(l):
             # a named local whose address escapes by `&mut`: its fields may be
             # rewritten by callees, so do not fold through its initialiser.  It is named
             # after its type (`~NodeQueue.extra`), not after the variable, so that renaming
@@ -389,6 +389,13 @@ class FnA:
         ty = re.sub(r"^(&mut |&)+", "", ty)
         ty = re.sub(r"<.*$", "", ty)
         return "~" + ty.split("::")[-1]
+
+    def _local_adt(self, l):
+        """is local l a struct / enum of the analysed crate held by value?  (a whole-value read of such
+        a variable whose address escaped by `&mut` — e.g. moving it into a helper — is as opaque as
+        a read of one of its fields)"""
+        ty = re.sub(r"<.*$", "", self.body.local_ty(l))
+        return ty in FnA.local_adts and bool(self.body.locals[l].get("user"))
 
     def _mut_borrowed(self, l):
         if not hasattr(self, "_mb"):
@@ -517,6 +524,10 @@ class FnA:
             f = args[1]["k"]["fn"]
             if f in TRANSPARENT or f.replace("core::", "std::") in TRANSPARENT:
                 return self.origin_operand(args[0], bi, pos, depth, seen)   # it.map(AsRef::as_ref) yields the items of it
+        if callee in ("std::mem::size_of", "core::mem::size_of") and t.get("gargs"):
+            sz = {"u8": 1, "i8": 1, "u16": 2, "i16": 2, "u32": 4, "i32": 4, "u64": 8, "i64": 8, "usize": 8, "isize": 8, "u128": 16, "i128": 16}.get(t["gargs"][0])
+            if sz is not None:
+                return ("lit", sz)   # 64-bit target, as built
         if callee in LEN_CALLEES and args:
             return ("len", self.origin_operand(args[0], bi, pos, depth, seen))
         if callee in POLL:
@@ -545,6 +556,7 @@ class FnA:
         return ("call", bi, c, at)
 
     resolver = None  # set by the engine: callee name -> FnA (crate-local bodies)
+    local_adts = frozenset()  # set by the engine: names of the analysed crate's own structs / enums
     _summaries = {}
 
     def _summary(self, callee):
